@@ -1,5 +1,6 @@
 LEVELS = {}
 NOT_DECIDED = {
     'C12': ['how often the main loop polls the timers (scheduling granularity) is not decided: clauses are stated "at the next call"'],
+    'C09': ['route classification prefix of messages() and next-hop grouping of packed_reach_attributes: bounded only (segment contracts abstract them)', 'NLRI encoders by assumed contract here (their own contracts belong to C01/C15)'],
     'C06': ['the kernel delivers the byte stream faithfully (recv callee contract); interference from other asyncio tasks at await is not decided'],
 }
